@@ -118,6 +118,7 @@ func (f *sdFam) Setup(cfg M, rng *rand.Rand) {
 		sg.Params.ChunkSize = p.cs
 		sg.Params.AttestFormSize = p.fs
 		sg.Params.AttestMinToPass = p.min
+		sg.Params.MissesToBurn = 1 // a parameter no handler reads: distinct from every quorum in use, so a handler that consults it shows
 		sg.Params.CollateralPrice = p.price
 		gs["storage"] = a.AppCodec().MustMarshalJSON(&sg)
 	})
